@@ -29,6 +29,10 @@ import (
 type state struct {
 	Messages                 []*schema.Message
 	ReturnDirectlyToolCallID string
+	// ReturnDirectlyToolCallIndex is the position (in the assistant message's ToolCalls, which is also
+	// the position in the tools node's answer) of the call to a return-directly tool, -1 if there is none.
+	// The id alone cannot tell: tool calls may come without id.
+	ReturnDirectlyToolCallIndex int
 }
 
 const (
@@ -184,7 +188,7 @@ func NewAgent(ctx context.Context, config *AgentConfig) (_ *Agent, err error) {
 	}
 
 	graph := compose.NewGraph[[]*schema.Message, *schema.Message](compose.WithGenLocalState(func(ctx context.Context) *state {
-		return &state{Messages: make([]*schema.Message, 0, config.MaxStep+1)}
+		return &state{Messages: make([]*schema.Message, 0, config.MaxStep+1), ReturnDirectlyToolCallIndex: -1}
 	}))
 
 	modelPreHandle := func(ctx context.Context, input []*schema.Message, state *state) ([]*schema.Message, error) {
@@ -209,7 +213,11 @@ func NewAgent(ctx context.Context, config *AgentConfig) (_ *Agent, err error) {
 
 	toolsNodePreHandle := func(ctx context.Context, input *schema.Message, state *state) (*schema.Message, error) {
 		state.Messages = append(state.Messages, input)
-		state.ReturnDirectlyToolCallID = getReturnDirectlyToolCallID(input, config.ToolReturnDirectly)
+		state.ReturnDirectlyToolCallIndex = getReturnDirectlyToolCallIndex(input, config.ToolReturnDirectly)
+		state.ReturnDirectlyToolCallID = ""
+		if state.ReturnDirectlyToolCallIndex >= 0 {
+			state.ReturnDirectlyToolCallID = input.ToolCalls[state.ReturnDirectlyToolCallIndex].ID
+		}
 		return input, nil
 	}
 	if err = graph.AddToolsNode(nodeKeyTools, toolsNode, compose.WithStatePreHandler(toolsNodePreHandle), compose.WithNodeName(ToolsNodeName)); err != nil {
@@ -255,11 +263,8 @@ func buildReturnDirectly(graph *compose.Graph[[]*schema.Message, *schema.Message
 		return schema.StreamReaderWithConvert(msgs, func(msgs []*schema.Message) (*schema.Message, error) {
 			var msg *schema.Message
 			err := compose.ProcessState[*state](ctx, func(_ context.Context, state *state) error {
-				for i := range msgs {
-					if msgs[i] != nil && msgs[i].ToolCallID == state.ReturnDirectlyToolCallID {
-						msg = msgs[i]
-						return nil
-					}
+				if i := state.ReturnDirectlyToolCallIndex; i >= 0 && i < len(msgs) && msgs[i] != nil {
+					msg = msgs[i]
 				}
 				return nil
 			})
@@ -283,7 +288,7 @@ func buildReturnDirectly(graph *compose.Graph[[]*schema.Message, *schema.Message
 		msgsStream.Close()
 
 		err = compose.ProcessState[*state](ctx, func(_ context.Context, state *state) error {
-			if len(state.ReturnDirectlyToolCallID) > 0 {
+			if state.ReturnDirectlyToolCallIndex >= 0 {
 				endNode = nodeKeyDirectReturn
 			} else {
 				endNode = nodeKeyModel
@@ -316,18 +321,18 @@ func genToolInfos(ctx context.Context, config compose.ToolsNodeConfig) ([]*schem
 	return toolInfos, nil
 }
 
-func getReturnDirectlyToolCallID(input *schema.Message, toolReturnDirectly map[string]struct{}) string {
+func getReturnDirectlyToolCallIndex(input *schema.Message, toolReturnDirectly map[string]struct{}) int {
 	if len(toolReturnDirectly) == 0 {
-		return ""
+		return -1
 	}
 
-	for _, toolCall := range input.ToolCalls {
+	for i, toolCall := range input.ToolCalls {
 		if _, ok := toolReturnDirectly[toolCall.Function.Name]; ok {
-			return toolCall.ID
+			return i
 		}
 	}
 
-	return ""
+	return -1
 }
 
 // Generate generates a response from the agent.
